@@ -17,6 +17,9 @@ using namespace SimTK;
 struct Rec { std::string tag; std::vector<double> v; };
 static std::vector<Rec> g_recs;
 static void sinkFn(const char* tag, int n, const double* v) {
+    static const bool live = getenv("C19_LIVE") != 0;
+    if (live) { fprintf(stderr, "T %s", tag); for (int i = 0; i < n; ++i) fprintf(stderr, " %a", v[i]); fprintf(stderr, "\n"); }
+    if (g_recs.size() > 200000) return;      // a runaway loop inside stepTo must not exhaust memory
     Rec r; r.tag = tag; r.v.assign(v, v + n); g_recs.push_back(r);
 }
 static void flushRecs() {
@@ -223,7 +226,7 @@ int main(int argc, char** argv) {
                     }
                     break;
                 }
-                if (st == Integrator::ReachedReportTime && adv > 0.61803 && t < 0.61803 && !aimed) {
+                if (st == Integrator::ReachedReportTime && std::abs(adv - 0.61803) < 1e-3 && t < adv && !aimed) {
                     // the step [.., adv] contains the crossing: aim just below the advanced time (= tHigh)
                     r = std::nextafter(adv, -Infinity); aimed = true;
                 } else if (!aimed) r = t + 0.013;
@@ -235,6 +238,7 @@ int main(int argc, char** argv) {
         Real report = tStart + (R.p(0.2) ? 0.0 : 0.1*R.u());
         Real sched  = R.p(0.2) ? Infinity : tStart + 0.2 + R.u();
         if (R.p(0.1)) report = Infinity;
+        if (report == Infinity && sched == Infinity && fin == Infinity && limit <= 0 && !everyStep) report = tStart + 0.1;
         int nEnd = 0;
         for (int call = 0; call < 60; ++call) {
             if (integ->isSimulationOver()) {
@@ -269,6 +273,9 @@ int main(int argc, char** argv) {
             if (R.p(0.08)) report = std::max(std::max(sched, adv), t);   // coincident report and scheduled event
             if (report < t) report = t;
             if (sched < adv) sched = adv;
+            // never ask for an unbounded integration
+            if (report == Infinity && sched == Infinity && fin == Infinity && limit <= 0 && !everyStep)
+                report = t + 0.3*R.u();
             if (t > tStart + 3.5) break;
         }
         printf("END\n");
